@@ -88,6 +88,48 @@ func c14Lookups(r *mon.Run, cm *chain.Manager, snap poolSnap, extra []types.Tran
 	}
 }
 
+// shuffleValidSet returns a PRNG permutation of the set that the pure oracle
+// accepts transaction by transaction on top of the tip (dependencies first).
+func shuffleValidSet(tip *chainlab.Node, rng *rand.Rand, set1 []types.Transaction, set2 []types.V2Transaction) ([]types.Transaction, []types.V2Transaction, bool) {
+	for try := 0; try < 6; try++ {
+		vb := tip.L.NewBuilder(rng)
+		ok := true
+		s1 := append([]types.Transaction{}, set1...)
+		s2 := append([]types.V2Transaction{}, set2...)
+		rng.Shuffle(len(s1), func(i, j int) { s1[i], s1[j] = s1[j], s1[i] })
+		rng.Shuffle(len(s2), func(i, j int) { s2[i], s2[j] = s2[j], s2[i] })
+		// repair the dependency order greedily: emit whatever validates next
+		var o1 []types.Transaction
+		var o2 []types.V2Transaction
+		for len(s1) > 0 && ok {
+			ok = false
+			for i := range s1 {
+				if vb.TryV1("shuffled", chainlab.DeepCopyTxn(s1[i])) {
+					o1 = append(o1, s1[i])
+					s1 = append(s1[:i:i], s1[i+1:]...)
+					ok = true
+					break
+				}
+			}
+		}
+		for len(s2) > 0 && ok {
+			ok = false
+			for i := range s2 {
+				if vb.TryV2("shuffled", s2[i].DeepCopy()) {
+					o2 = append(o2, s2[i])
+					s2 = append(s2[:i:i], s2[i+1:]...)
+					ok = true
+					break
+				}
+			}
+		}
+		if ok && len(s1) == 0 && len(s2) == 0 {
+			return o1, o2, true
+		}
+	}
+	return nil, nil, false
+}
+
 func orUnknown(k string) string {
 	if k == "" {
 		return "unknown"
@@ -201,6 +243,24 @@ func runC14History(r *mon.Run, stream uint64) {
 				set1 = append(append([]types.Transaction{}, pre.v1...), fv1...)
 			} else {
 				set1, set2 = fv1, fv2
+			}
+			// the pooled members need not come first: any order that keeps parents
+			// before children is a valid set (checked against the pure oracle)
+			if rng.IntN(3) != 0 {
+				if s1, s2, ok := shuffleValidSet(tip, rng, set1, set2); ok {
+					set1, set2 = s1, s2
+					var lastID types.TransactionID
+					if len(set2) > 0 {
+						lastID = set2[len(set2)-1].ID()
+					} else if len(set1) > 0 {
+						lastID = set1[len(set1)-1].ID()
+					}
+					if _, k := pre.ids[lastID]; k {
+						r.Count("partly_known_sets_ending_with_known", 1)
+					} else {
+						r.Count("partly_known_sets_shuffled", 1)
+					}
+				}
 			}
 		case "all-known":
 			if useV2 {
@@ -539,6 +599,7 @@ func runC14(r *mon.Run, replay string) {
 	parallel(n, func(i int) { runC14History(r, uint64(14000+i)) })
 	r.Floor("steps_with_both_kinds_pooled", 50)
 	r.Floor("submissions_rejected", 50)
+	r.Floor("partly_known_sets_ending_with_known", 20)
 	r.Floor("lookups:PoolTransaction:v2", 100)
 	r.Floor("lookups:V2PoolTransaction:v1", 100)
 	_ = rand.Int
